@@ -169,7 +169,7 @@ func (w *W) build(b []byte, sh int, det func() map[string]interface{}) (h *hll.H
 		d["changed"] = ch
 		c.Fail("Build:writes-callers-slice", fmt.Sprintf("BuildHyperLogLog(buffer[%d:%d]) changed the caller's buffer: %s", l.lo, l.hi, ch[0]), d)
 	}
-	if h != nil && pv == nil && sh%2 == 1 {
+	if h != nil && pv == nil && sh%6 == 1 {
 		// the caller reuses its buffer: the counter that was built keeps its state
 		got := append([]byte(nil), h.GetBytes()...)
 		for k := range l.arr {
